@@ -3,6 +3,7 @@
 package simnet
 
 import (
+	"bytes"
 	"errors"
 	"fmt"
 	"io"
@@ -140,6 +141,8 @@ type T struct {
 	// Auth flavour for in-channel authentication: "", "telnet" or "ssh".
 	Auth    string
 	SSHArgs *transport.SSHArgs
+	// Marked: a write of exactly these bytes passes the extra yield point "tr.write.marked"
+	Marked []byte
 
 	rng *rand.Rand
 	mu  sync.Mutex
@@ -598,6 +601,10 @@ func (t *T) segAt(off int) *emitted {
 // Write implements transport.Implementation.
 func (t *T) Write(b []byte) error {
 	t.K.Yield("tr.write")
+	if len(t.Marked) > 0 && bytes.Equal(b, t.Marked) {
+		// a yield point of its own for the one write a scenario wants to single out
+		t.K.Yield("tr.write.marked")
+	}
 	t.mu.Lock()
 	defer t.mu.Unlock()
 	now := t.K.Now()
